@@ -1,4 +1,5 @@
 """C19 — show() draws each object where it is and does not alter it"""
+from corr import disp_family
 from oracles import c19 as oracle
 
 GEN = ["Units"]
@@ -7,6 +8,10 @@ PROPS = ["MagpyVerif.Props.C19"]
 
 
 def run(ctx, model_ok):
+    corr = None
+    if ctx.driver_ok:
+        corr = disp_family.run_stream(ctx, ctx.scale(200, 5000))
+        ctx.cov["correspondence"] = corr
     budget = 4 if len(ctx.broken) else 1
     fails, ost = oracle.sweep(ctx, ctx.scale(25, 800) * budget)
     ctx.failing += fails
@@ -16,9 +21,20 @@ def run(ctx, model_ok):
     ctx.cov["rule"] = ("one plotly figure per case: Cuboid / Cylinder / Sphere / Circle / Polyline with random size, path of 1-3 random poses (all frames shown), "
                        "length unit m/mm/km/cm, bare or inside a Collection; every case has fresh random geometry and poses")
     ctx.cov["traces_validated_against_impl"] = ost["c19_figures"]
-    ctx.cov["samples"] = [ost]
-    ctx.cov["not_shown"] = ["local model generators (make_Cuboid ... make_Sensor), trace grouping/merging, frame selection, plotly/matplotlib/pyvista glue: display oracle only "
+    ctx.cov["samples"] = [ost] + (corr.pop("samples") if corr else [])
+    if corr:
+        ctx.cov["evaluations"] += corr["cases"]
+        ctx.cov["distinct_nontrivial"] += corr["distinct"]
+        ctx.cov["traces_validated_against_impl"] += corr["cases"]
+        ctx.cov["rule"] += ("; disp stream: get_rot_pos_from_path on integer paths of length 1-8 with show_path None/True/False/int (0, negative)/"
+                            "list (out-of-range, negative, duplicate entries)/other, make_Cuboid (integer dimension, position, 4 backends), make_Tetrahedron "
+                            "(integer vertices, both chiralities), make_Prism / make_Pyramid index arrays (base 0-50) against Model/Display.lean, exact; "
+                            "distinct = distinct (kind, canonical result) pairs")
+    ctx.cov["not_shown"] = ["local model generators other than make_Cuboid / make_Tetrahedron and the index arrays of make_Prism / make_Pyramid (vertex coordinates of Prism, Pyramid, "
+                            "Ellipsoid, CylinderSegment, Arrow use sin/cos), trace grouping/merging, plotly/matplotlib/pyvista glue: display oracle only "
                             "(plotly backend; matplotlib/pyvista not exercised)",
+                            "frames: 'the last path row is always displayed' and 'no row is drawn twice' hold only for the show_path classes named in "
+                            "frames_contains_last_partial / frames_rows_strictly_increasing_partial (witness theorems show the exclusions are necessary)",
                             "CylinderSegment, Tetrahedron, TriangularMesh, Triangle, Dipole, Sensor graphics are not mapped back by the oracle"]
 
 
